@@ -315,6 +315,22 @@ Theorem C17_tsf_source_is_the_model_forest :
 Proof. intros L eqb. exact (gen_tsf_proba_is_model eqb). Qed.
 Print Assumptions C17_tsf_source_is_the_model_forest.
 
+(* ContractableBOSS: with the member weights as regenerated from fit (accuracy^4, a negligible
+   positive weight where that is 0) a fitted ensemble returns a probability row for ALL train
+   accuracies and votes of its members - in particular when no member got a training case right *)
+Theorem C17_cboss_row_is_distribution_for_all_accuracies :
+  forall (L : Type) (eqb : L -> L -> bool), (forall a b, eqb a b = true <-> a = b) ->
+  forall classes (members : list (L * Q)),
+  members <> [] -> NoDup classes -> (forall m, In m members -> In (fst m) classes) ->
+  (forall acc, 0 < gen_cboss_weight acc) /\
+  is_dist (length classes)
+    (vote_row eqb classes (map (fun m => (fst m, gen_cboss_weight (snd m))) members)).
+Proof.
+  intros L eqb Hs classes members H1 H2 H3. split; [exact gen_cboss_weight_pos|].
+  apply cboss_row_is_distribution; assumption.
+Qed.
+Print Assumptions C17_cboss_row_is_distribution_for_all_accuracies.
+
 (* non-vacuity of the forest theorem: classes_ = [-3; 7; 42]; one tree saw all three classes, one
    tree's bag missed 42, one missed -3; both short rows are placed by label and the forest's row is
    the mean of the three placed rows *)
